@@ -5,6 +5,7 @@ K(d, g, t) == [d |-> d, g |-> g, t |-> t]
 MCKeys2 == {K("d1", "g1", ""), K("d2", "g1", "")}
 MCKeys3 == {K("d1", "g1", ""), K("d1", "g2", ""), K("d2", "g2", "nsA")}
 MCKeysSim == {K("d1", "g1", ""), K("d2", "g1", ""), K("d1", "g2", ""), K("d3", "g2", ""), K("d1", "g1", "nsA"), K("dx1", "g3", "nsA")}
+MCKeysFront == {K("d1", "g1", ""), K("d2", "g1", ""), K("d1", "g2", ""), K("d1", "g1", "nsA"), K("dx1", "g2", "nsA")}
 \* hide history ids and the step history from the fingerprint
 MCView == <<[k \in DOMAIN cache |-> [c |-> cache[k].content, t |-> cache[k].ctype, tmp |-> cache[k].tmp, ls |-> cache[k].listed,
                                      h |-> [i \in 1..Len(cache[k].hist) |-> cache[k].hist[i].content]]],
